@@ -201,6 +201,12 @@ func tracesToDocsKey(p *core.Prog, fn *ssa.Function, prm *ssa.Parameter, depth i
 		}
 	}
 	if n == 0 {
+		// an unexported function that nothing calls and whose address is never taken cannot run
+		if obj := fn.Object(); obj != nil && !obj.Exported() {
+			if _, esc := eng.CallSitesOf(fn); !esc {
+				return true, "no call site: " + core.ShortFn(fn) + " is never called"
+			}
+		}
 		return false, ""
 	}
 	return true, fmt.Sprintf("%d call sites of %s", n, core.ShortFn(fn))
